@@ -663,15 +663,54 @@ def _expand_observe_mutate_observe(key, d, fresh, ctx, R, cols):
     shape, common, _ = key
     nrows = shape[0]
 
-    def run(opd, opname, mutate, exp):
+    from catii.indxio import IndxIO
+    from catii.iindexes import iindex
+
+    present = set(int(x) for x in d.flat)
+    layouts = ["built", "strided-entries", "read-only-entries"]
+    if common >= 0 and all(v >= 0 for v in present) and len(shape) <= 2:
+        layouts.append("loaded-from-indx")
+
+    def make(layout):
+        """The same index with its row-id arrays held differently: as built; as non-contiguous views; read-only; as the (read-only, file-backed)
+        views IndxIO.load hands out - what an index is made of in a save -> load -> change pipeline."""
         s = fresh()
-        try:
-            _touch(s)
-            mutate(s)
-            _reobserve(s, exp, opd, ctx, opname)
-        except Exception as e:  # noqa
-            ctx.v("C06", opname + ":stale:raised", opd, repr(e))
-        ctx.ntrans += 1
+        if layout == "built":
+            return s
+        if layout == "loaded-from-indx":
+            ctx.seq = getattr(ctx, "seq", 0) + 1
+            path = os.path.join(core.scratch_dir(), "hl-%d-%d.indx" % (os.getpid(), ctx.seq))
+            with open(path, "wb") as f:
+                IndxIO.save(f, s, s.common, s.rowid_dtype)
+            with open(path, "rb") as f:
+                ents, cm, dt = IndxIO.load(f)
+            os.unlink(path)      # the mapping keeps the data alive; one file per object (the row ids are views of it)
+            return iindex(ents, cm, tuple(shape))
+        for k2 in list(dict.keys(s)):
+            a = dict.__getitem__(s, k2)
+            if layout == "strided-entries":
+                big = numpy.zeros(2 * len(a) + 1, dtype=U32)
+                big[::2][:len(a)] = a
+                dict.__setitem__(s, k2, big[::2][:len(a)])
+            else:
+                a = a.copy()
+                a.flags.writeable = False
+                dict.__setitem__(s, k2, a)
+        return s
+
+    def run(opd, opname, mutate, exp):
+        for layout in layouts:
+            od = opd if layout == "built" else dict(opd, layout=layout)
+            try:
+                s = make(layout)
+                _touch(s)
+                mutate(s)
+                _reobserve(s, exp, od, ctx, opname)
+                if layout != "built":
+                    wellformed(s, exp, od, ctx, opname)
+            except Exception as e:  # noqa
+                ctx.v("C06", opname + ":stale:raised", od, repr(e))
+            ctx.ntrans += 1
 
     for v in (None,) + COMMONS:
         run({"op": "shift_common", "to": v, "after_reading": True}, "shift_common", (lambda s, v=v: s.shift_common(v) if v is not None else s.shift_common()), d)
